@@ -308,7 +308,7 @@ func ranges(r *lib.Rand, s store, cur uint64, quick bool) []rng {
 	out := []rng{{[]byte("/r/"), []byte("/r0"), 0}}
 	out = append(out, s.extra...)
 	if s.big > 0 {
-		return append(out, rng{[]byte("/r/k0100"), []byte("/r/k0500"), cur})
+		return out
 	}
 	out = append(out, rng{[]byte("/r/"), []byte("/r0"), uint64(lib.RSBaseRev + 1 + r.Intn(int(cur-lib.RSBaseRev)+1))})
 	n := 2
@@ -446,7 +446,10 @@ func finish(w *lib.Writer, n *lib.RSNode, p *partitioner, inner storage.KvStorag
 			if ti < len(fixed) {
 				spec = fixed[ti]
 			} else {
-				spec = tilingSpec{borders: pickBorders(r, pool, r.Intn(5), oc), rot: r.Intn(5), reverse: r.Bool()}
+				spec = tilingSpec{borders: pickBorders(r, pool, r.Intn(5), oc)}
+				if r.Bool() { // the engine lists its partitions out of key order
+					spec.rot, spec.reverse = r.Intn(5), r.Bool()
+				}
 			}
 			curFn = synthetic(spec.borders, spec.rot, spec.reverse)
 			hb := make([]string, len(spec.borders))
@@ -454,6 +457,11 @@ func finish(w *lib.Writer, n *lib.RSNode, p *partitioner, inner storage.KvStorag
 				hb[i] = lib.Q(b)
 			}
 			desc = map[string]interface{}{"borders": hb, "rot": spec.rot, "reverse": spec.reverse}
+			if spec.rot%(len(spec.borders)+1) != 0 || (spec.reverse && len(spec.borders) > 0) {
+				oc["engine-order-shuffled"]++
+			} else {
+				oc["engine-order-ascending"]++
+			}
 		}
 		p.calls = nil
 		var gs []string
@@ -501,7 +509,16 @@ func main() {
 	case "search":
 		ns, ntil, tikvEvery = 200, 5, 5
 	}
-	w := lib.NewWriter(args, "C13", "c13", "From KB Require Import Model.C13Cases.", "c13_case", "c13_check", "c13_oracle", 6)
+	w := lib.NewWriter(args, "C13", "c13", "From KB Require Import Model.C13Cases.", "c13_case", "c13_check", "c13_oracle", 5)
+
+	// corpus 3: 700 keys: the 300-entry batch cut in a single partition (300/300/100), in partitions of 250/450
+	// (border between two versions of /r/k0248... resp. on a version record) and 3/302/385/10 keys
+	big := store{big: 700}
+	runStore(w, args, big, rnd.Fork(), "corpus/memkv-wrap-big", 3, []tilingSpec{
+		{borders: nil},
+		{borders: [][]byte{enc("/r/k0250", 5000)}},
+		{borders: [][]byte{enc("/r/k0003", 0), enc("/r/k0305", 440), enc("/r/k0690", 1)}, reverse: true},
+	}, quick)
 
 	c := func(k, v string) lib.RSOp { return lib.RSOp{Kind: "create", Key: []byte(k), Val: []byte(v)} }
 	u := func(k, v string, prev uint64) lib.RSOp {
@@ -525,15 +542,6 @@ func main() {
 	runTiKV(w, args, s1b, rnd.Fork(), "corpus/tikv-split", func([]lib.KV, uint64) [][]byte {
 		return [][]byte{enc("/r/a", 104), enc("/r/a/b", 106)}
 	}, quick)
-	// corpus 3: 700 keys: the 300-entry batch cut in a single partition (300/300/100), in partitions of 250/450
-	// (border between two versions of /r/k0248... resp. on a version record) and 3/302/385/10 keys
-	big := store{big: 700}
-	runStore(w, args, big, rnd.Fork(), "corpus/memkv-wrap-big", 3, []tilingSpec{
-		{borders: nil},
-		{borders: [][]byte{enc("/r/k0250", 5000)}},
-		{borders: [][]byte{enc("/r/k0003", 0), enc("/r/k0305", 440), enc("/r/k0690", 1)}, reverse: true},
-	}, quick)
-
 	for i := 0; i < ns; i++ {
 		hr := rnd.Fork()
 		s := genStore(hr)
